@@ -64,9 +64,22 @@ def observe_file(name, text, reg=None):
     except Exception as e:  # noqa: BLE001
         return ("exc", type(e).__name__, str(e)[:120])
     try:
-        return ("diags", tuple(impl.diag_tuple(e) for e in f.errors), f.errors.status)
+        obs = ("diags", tuple(impl.diag_tuple(e) for e in f.errors), f.errors.status)
     except Exception as e:  # noqa: BLE001
         return ("exc", type(e).__name__, str(e)[:120])
+    # the report of the run so far, in both formats: what it says about *this* file (last entry) is part of the
+    # observation -- a formatter that carries something from one file to the next is history dependence too
+    _REPORTED.append(f)
+    try:
+        from . import c16
+        last_json = c16.parse(impl.format_files(_REPORTED, "json"), True)[-1]
+        last_human = c16.parse(impl.format_files(_REPORTED, "humanized"), False)[-1]
+        return obs + ((last_json[1], tuple(last_json[2])), (last_human[1], tuple(last_human[2])))
+    except Exception as e:  # noqa: BLE001
+        return obs + (("report-exc", type(e).__name__, str(e)[:80]),)
+
+
+_REPORTED = []      # files analysed to a verdict by this process (a history runs in its own forked child)
 
 
 def global_state():
